@@ -285,6 +285,29 @@ CLAIMED = {
              "the converter must not be atoi-class (it is: known finding). Value round-trip equality is not decided.",
         technique="enum/table/switch exhaustiveness (ENUMTABLE), per-case dominance/response, banned-callee (LOSSY) rule",
         design="5/C29"),
+    "C01": dict(
+        text="Completeness clause ('a shortened body is never presented as complete') on all paths: HttpStateData::writeReplyBody marks the virgin reply whole only "
+             "with a reason set under one of the three framing-complete conditions and otherwise fails on EOF; the chunked path marks whole only after the decoder "
+             "reported the last-chunk; the chain markParsedVirginReplyAsWhole -> completeForwarding -> markStoredReplyAsWhole -> FwdState::completed -> "
+             "completeSuccessfully has only the confirmed callers/writers (whole program) and each link requires the previous mark; replyStatus returns "
+             "STREAM_COMPLETE only for a non-aborted, good-length, fully transferred reply; writeComplete never reuses the connection after UNPLANNED_COMPLETE/FAILED; "
+             "packChunk uses one length. Byte equality and segmentation are not decided.",
+        technique="CFG dominance with flag-local constant propagation + path-sensitive disjunctions + whole-program who-calls/who-writes chain + case exclusion",
+        design="5/C01"),
+    "C02": dict(
+        text="Framing-end clause: the chunked terminator is emitted (two sites) only with receivedWholeRequestBody established and sentLastChunk recorded first; "
+             "that flag is set only by the producer's end-of-body notification (whole program); a data chunk's size line and payload use one non-zero length; BodyPipe "
+             "buffer changes are always followed by the matching postAppend/postConsume with the same amount and only those write the produced/consumed counters; the "
+             "chunked request body is declared finished only when the chunk parser reported completion, after the size-limit verdict. Byte equality is not decided.",
+        technique="CFG dominance at every emitter of the terminator literal + response (must-pass after event) + same-variable argument checks + whole-program who-writes",
+        design="5/C02"),
+    "C31": dict(
+        text="AnyP::Uri::Encode emits each non-ignored byte as \"%%%02X\" of that byte cast through unsigned char and copies raw only what prefix(_, ignore) matched; "
+             "Decode appends (hex1 << 4) | hex2 only after '%' and two single-digit hex int64() reads and returns nullopt on any other sequence; rfc1738_unescape reads "
+             "s[j+2] only after fromhex(s[j+1]) >= 0 (fromhex is negative for NUL), writes only s[i] with i advancing by one and j never moving back. "
+             "decode(encode(x)) == x is not decided.",
+        technique="call-argument shape (format literal, cast chain, operator tree) + CFG dominance with history facts + guard intervals",
+        design="5/C31"),
 }
 
 NOT_APPLICABLE = {
